@@ -47,6 +47,18 @@ Section Derived.
     end.
   Definition nargmax (l : list F) : nat :=
     match l with [] => 0%nat | x :: t => argmax_from x 0%nat 1%nat t end.
+  (** first index of a minimal element (jnp.argmin) *)
+  Fixpoint argmin_from (best : F) (bi : nat) (k : nat) (l : list F) : nat :=
+    match l with
+    | [] => bi
+    | x :: t => if nltb x best then argmin_from x k (S k) t else argmin_from best bi (S k) t
+    end.
+  Definition nargmin (l : list F) : nat :=
+    match l with [] => 0%nat | x :: t => argmin_from x 0%nat 1%nat t end.
+  (** jnp.sign *)
+  Definition nsign (a : F) : F := if nltb nzero a then nunit else if nltb a nzero then - nunit else nzero.
+  Definition nhalf : F := nofQ (1 # 2).
+  Definition ntwo : F := nunit + nunit.
 End Derived.
 
 (* ------------------------------------------------------------------ *)
